@@ -18,6 +18,11 @@ CHECKS = {
              "statement of the schema semantics. Within the structural bound this is a decision over all "
              "integers / doubles / short strings, which no finite test list gives.",
         design="4/C02"),
+    "C03": dict(
+        text="Bounded symbolic execution of Validator and SubstitutorValidator on the C02 skeletons; for "
+             "EVERY error on EVERY path the solver must confirm: path resolves to the reported object, the "
+             "stated fact holds, fields are the declared parameters, the message names the path.",
+        design="4/C03"),
 }
 
 NOT_YET = {
